@@ -368,6 +368,7 @@ def run_check(prop: str, tier: str, master: int, n_runs=None, budget_s=None, cfg
     for r, v in viol:
         sig = v["signature"]
         seen.setdefault(sig, []).append((r, v))
+    min_deadline = time.time() + (180 if tier == "quick" else 900)  # total minimisation budget
     for sig, lst in sorted(seen.items()):
         r, v = lst[0]
         sc = r.get("scenario")
@@ -376,8 +377,10 @@ def run_check(prop: str, tier: str, master: int, n_runs=None, budget_s=None, cfg
         if sc is not None and known:
             # a listed finding: keep the raw scenario as replay, do not spend the budget shrinking it
             path = core.write_replay(prop, sc.get("seed"), sig, {"kind": "run-level", "scenario": sc, "expect": {"signature": sig, "round": v.get("round"), "phase": v.get("phase"), "digest": r["digest"]}, "detail": v.get("detail"), "minimisation": {"minimised": False, "reason": "matches an open known finding"}})
+        elif sc is not None and time.time() > min_deadline:
+            path = core.write_replay(prop, sc.get("seed"), sig, {"kind": "run-level", "scenario": sc, "expect": {"signature": sig, "round": v.get("round"), "phase": v.get("phase"), "digest": r["digest"]}, "detail": v.get("detail"), "minimisation": {"minimised": False, "reason": "minimisation budget of this check run exhausted by earlier signatures"}})
         elif sc is not None:
-            msc, got, info = minimise(sc, sig, budget_s=60 if tier == "quick" else 180)
+            msc, got, info = minimise(sc, sig, budget_s=min(60 if tier == "quick" else 180, max(5.0, min_deadline - time.time())))
             if got is not None:
                 path = make_replay(prop, msc, sig, info, got[0], got[1])
             else:
